@@ -439,4 +439,16 @@ example : sigma2coeff [1, 1 / 2, 1 / 4, 0] [1, 3 / 4, 1 / 8, 0]
     = [[1 / 2, 0, 0], [1 / 2, 1, 1 / 2], [0, 0, 1 / 2]] := by
   decide +kernel
 
+/-- **C17 (variables on the lowest levels only).** The weights of a variable stored on the lowest `n ≥ 2` levels, taken
+from those `n` nodes, sum to one for every target — also above the `n`-th node. -/
+theorem reduced_sum_one (ex : Bool) (xs : List ℚ) (n : Nat) (t : ℚ) (hn : 2 ≤ n) (hx : n ≤ xs.length) :
+    sum (weightsAsc ex (xs.take n) t) = 1 :=
+  sum_one ex (xs.take n) t (by rw [List.length_take]; omega)
+
+/-- the first rows of the weights of the full grid are not such weights: for a target above the reduced top they sum
+to less than one (what the repaired `interpSigma` of GEOS-Chem files used) -/
+theorem reduced_rows_counterexample :
+    sum ((weightsAsc false [0, 1, 2, 3] (5 / 2)).take 2) = 0 ∧ sum (weightsAsc false ([0, 1, 2, 3].take 2) (5 / 2)) = 1 := by
+  constructor <;> decide +kernel
+
 end Props.C17
